@@ -25,7 +25,7 @@ for root, dirs, files in os.walk(src):
         elif not filecmp.cmp(p, q, shallow=False):
             if rel in SHARED:
                 shared.append(rel)
-            elif any(o.lower() in os.path.splitext(os.path.basename(rel))[0].lower() for o in own):
+            elif any(o.lower() == os.path.splitext(os.path.basename(rel))[0].lower() for o in own):
                 changed.append(rel)
             else:
                 stale.append(rel)
